@@ -19,6 +19,16 @@ def denote : Re → Rx Int
   | .or l r => .alt (denote l) (denote r)
   | .and l r => .inter (denote l) (denote r)
 
+/-- representation invariant of `Regex` objects: every `SymbolSet` holds an `IntegerSet` in canonical
+form (the `IntegerSet` constructor establishes it; C33) -/
+def WF : Re → Prop
+  | .eps => True
+  | .set s => Spec.IntSet.Canon s
+  | .star e => WF e
+  | .cat l r => WF l ∧ WF r
+  | .or l r => WF l ∧ WF r
+  | .and l r => WF l ∧ WF r
+
 /-- `s ∈ L r` -/
 def L (r : Re) (s : List Int) : Prop := Matches (denote r) s
 
